@@ -45,10 +45,10 @@ import (
 
 // Opts bounds the generated values. The zero value / nil means defaults.
 type Opts struct {
-	MaxLen    int  // maximum generated slice length (default 3)
-	MaxDepth  int  // maximum SpendPolicy nesting depth (default 3)
-	Budget    int  // soft bound on generated composite nodes (default 300); once spent, slices come out nil/empty, pointers nil, policies leaves
-	SubSecond bool // also generate sub-second time parts and non-UTC locations
+	MaxLen     int  // maximum generated slice length (default 3)
+	MaxDepth   int  // maximum SpendPolicy nesting depth (default 3)
+	Budget     int  // soft bound on generated composite nodes (default 300); once spent, slices come out nil/empty, pointers nil, policies leaves
+	SubSecond  bool // also generate sub-second time parts and non-UTC locations
 	NoZeroTime bool // never generate the zero time.Time
 
 	left int
